@@ -967,13 +967,96 @@ def _rot(xs, k):
     return xs[k:] + xs[:k]
 
 
+# ---- histories on one parsed tree: generate, edit in place, generate again ------------------------------------------
+# The XML must mirror the flat model of the tree *as it is now*.  Differential oracle: the same edits applied to a
+# fresh parse, generated once.
+
+
+def _edit(tree, name, kind, n):
+    from pymoca import ast
+
+    c = tree.classes[name]
+    if kind == "add":
+        v = "zz_added%d" % n
+        c.add_symbol(ast.Symbol(name=v, type=ast.ComponentRef(name="Real")))
+        c.add_equation(ast.Equation(left=ast.ComponentRef(name=v), right=ast.Primary(value=41.5 + n)))
+    elif kind == "drop" and c.equations:
+        c.remove_equation(c.equations[0])
+    elif kind == "value":
+        for s_ in c.symbols.values():
+            if isinstance(s_.type, ast.ComponentRef) and s_.type.name == "Real" and "parameter" in s_.prefixes and s_.class_modification is not None:
+                for arg in s_.class_modification.arguments:
+                    if getattr(arg.value, "component", None) is not None and arg.value.component.name == "value":
+                        arg.value.modifications = [ast.Primary(value=99.25 + n)]
+                        return
+
+
+def _canon_xml(text):
+    import xml.etree.ElementTree as ET
+
+    return ET.tostring(ET.fromstring(text))
+
+
+def check_history(job):
+    from pymoca import parser
+    from pymoca.backends.xml import generator
+
+    fam, prog, edits = job
+    text = prog.text()
+    case = {"family": "history", "text": text, "edits": list(edits)}
+    try:
+        tree = parser.parse(text, bypass_cache=True)
+        generator.generate(tree, "M")
+    except Exception:
+        return {"viol": [], "skipped": True}
+    viol = []
+    for k in range(len(edits)):
+        _edit(tree, "M", edits[k], k)
+        fresh = parser.parse(text, bypass_cache=True)
+        for j in range(k + 1):
+            _edit(fresh, "M", edits[j], j)
+        try:
+            want = _canon_xml(generator.generate(fresh, "M"))
+        except Exception:
+            return {"viol": viol, "skipped": True}
+        try:
+            got = _canon_xml(generator.generate(tree, "M"))
+        except Exception as e:
+            viol.append(("history-generate-raises:" + type(e).__name__, "generate after in-place edits %r raises %r\n%s" % (edits[: k + 1], e, text), case))
+            break
+        if got != want:
+            viol.append(("history-stale-xml:after-" + edits[k], "XML generated after in-place edits %r differs from the XML of a fresh parse with the same edits\n%s" % (list(edits[: k + 1]), text), case))
+            break
+    return {"viol": viol, "skipped": False}
+
+
+def history_jobs(tier):
+    progs = [(f, p) for f, p in programs(tier) if f in ("declarations", "trees", "nested")]
+    step = max(1, len(progs) // (12 if tier == "quick" else 60))
+    chosen = progs[::step]
+    seqs = [("add",), ("drop",), ("value",), ("add", "drop"), ("value", "add"), ("add", "add"), ("drop", "value")]
+    if tier == "thorough":
+        import itertools
+
+        seqs = [s_ for n in (1, 2, 3) for s_ in itertools.product(("add", "drop", "value"), repeat=n)]
+    return [(f, p, s_) for f, p in chosen for s_ in seqs]
+
+
 def run(ctx):
     from pymoca import parser, tree  # noqa: F401  (imported before the fork: the workers inherit the modules)
     from pymoca.backends.xml import generator  # noqa: F401
 
     progs = _rot(programs(ctx.tier), ctx.seed * 37)
+    hjobs = history_jobs(ctx.tier)
     with common.Pool() as pool:
         res = pool.map(check, progs, chunksize=4)
+        hres = pool.map(check_history, hjobs, chunksize=2)
+    hist_run = 0
+    for r in hres:
+        hist_run += 0 if r["skipped"] else 1
+        for sig, msg, case in r["viol"]:
+            ctx.violation(sig, msg, case)
+    ctx.coverage["edit_histories"] = hist_run
     fams, rejected, upstream = {}, {}, []
     eq_texts, nontrivial_eq, decl_texts, nontrivial_decl = set(), set(), set(), set()
     n_eq = n_sym = 0
@@ -1027,7 +1110,10 @@ def run(ctx):
             "nodes as its equation, 1-2 instances, 5 modifications, 3 outer equations; when: single-branch when-equations with "
             "every Boolean shape as condition and 3 bodies (equations, reinit); signed literals as start / value (rejection "
             "tolerated). Non-trivial = an equation with at least one operator node (name, operand count and operand order can "
-            "go wrong) or a declaration with a variability, start, value, fixed or alias type; distinct texts are counted."
+            "go wrong) or a declaration with a variability, start, value, fixed or alias type; distinct texts are counted. "
+            "Histories: on a fixed sub-sample of the models, generate, then every sequence of 1-2 (thorough 1-3) in-place edits out of "
+            "{add a variable and its equation, drop the first equation, change a parameter value}, generating after each; the XML "
+            "must equal the XML of a fresh parse carrying the same edits."
             % (nmax, PACK, len(NUMS), len(STRS), nmax - 1),
         }
     )
@@ -1044,6 +1130,13 @@ def run(ctx):
 
 
 def replay(case):
+    if case.get("family") == "history":
+        for f, p_, e in history_jobs("thorough"):
+            if p_.text() == case["text"] and list(e) == list(case["edits"]):
+                r = check_history((f, p_, e))
+                print(case["text"], case["edits"], [m.split("\n")[0] for _, m, _ in r["viol"]] or "ok")
+                return not r["viol"]
+        return True
     ref = _tuplify(case["ref"])
     ref["symbols"] = [dict(s) for s in ref["symbols"]]
     r = check_text(case["family"], case["text"], ref)
